@@ -343,14 +343,21 @@ struct TemplateCore {
         while ((match = finder.GetMatch()) != 0U) {
             switch (match) {
                 case TagPatterns::LineEndID: {
+                    TagBit *tag_bit = nullptr;
+
                     if (is_child && parent_storage.IsNotEmpty()) {
+                        tag_bit = (*(parent_storage.Last()))->Last();
+                    }
+
+                    // '}' closes the innermost open tag only when that is {svar: or {if, not a <loop> or <if>
+                    // opened inside one of them.
+                    if ((tag_bit != nullptr) && ((tag_bit->GetType() == TagType::SuperVariable) ||
+                                                 (tag_bit->GetType() == TagType::InLineIf))) {
                         is_child = false;
                         storage  = *(parent_storage.Last());
                         parent_storage.Drop(SizeT{1});
 
-                        TagBit *tag_bit = storage->Last();
-
-                        switch ((tag_bit != nullptr) ? tag_bit->GetType() : TagType::None) {
+                        switch (tag_bit->GetType()) {
                             case TagType::SuperVariable: {
                                 SuperVariableTag &tag = tag_bit->GetSuperVariableTag();
                                 tag.EndOffset         = finder.GetOffset();
